@@ -488,6 +488,9 @@ def run(chk):
             raise AnalysisError("C13.R5: no construction of a per-server client is reached through %s.__init__ + add_server" % cname)
         for pos, kw in hcreated:
             v = kw.get("ignore_exc", None)
+            if v is None and "**" in kw:
+                r5.undecided("%s:ignore_exc-forwarded" % cname, "the per-server clients are constructed with a `**mapping` whose content the analysis lost")
+                continue
             r5.expect(v is None or v == Const(False), "%s: per-server clients are created with ignore_exc off" % cname, "%s:ignore_exc-forwarded" % cname, "%s constructs its per-server clients with ignore_exc=%s: their reads then swallow connection errors themselves, the failover logic never sees a failure, and a dead server is contacted by every call (no marking, no back-off, no eviction, no rerouting)" % (cname, "its own `ignore_exc` option" if isinstance(v, pooled_an.P) else v), fn=hinit, node=hinit.node)
     chk.assume("retry_timeout < dead_timeout, as in the property")
     chk.assume("time.time() is monotone between the calls of one operation")
